@@ -12,6 +12,9 @@ C22  Scheduler processing visits each selected item once, in dependency order.
  R3  selection: SFilter.__next__ skips external items unless requested, filters
      on the item class, honours exclude_ignored and mode; ``Item.targets``
      removes disabled *and* blocked dependencies.
+ R4  which items are *selected* also depends on the ``is_ignored`` flag set while
+     the graph is populated: it is computed with parent-scope matching (the rule
+     C21 R5 is re-evaluated here).
 Not decided: exactly-once (property of networkx.topological_sort on a DAG).
 """
 import ast
@@ -259,6 +262,19 @@ def run(ctx):
     ok = bool(exn) and 'self.disable' in exsrc and 'self.block' in exsrc
     (ctx.judge('R3', 'Item.targets excludes disable+block') if ok else
      ctx.violation('R3', 'Item.targets', tg.where, 'targets no longer excludes both disabled and blocked dependencies'))
+    # ---- R4: the "ignored" selection follows parent scopes (re-evaluation of C21 R5 on the same model)
+    from sa.report import Ctx
+    from sa.rules import c21
+    ctx.rule('R4', 'the is_ignored flag that selects items for processing is computed with parent-scope matching (C21 R5 re-evaluated)')
+    sub = Ctx('C21', m, quiet=True)
+    c21.run(sub)
+    hits = [f_ for f_ in sub.findings if f_.rule == 'R5']
+    for f_ in hits:
+        ctx.violation('R4', f'selection:{f_.construct}', f_.where,
+                      f'{f_.message}: an `ignore` entry naming the enclosing module / type no longer marks the dependency as ignored, so '
+                      f'transformations with process_ignored_items=False are applied to items the configuration excludes')
+    if not hits:
+        ctx.judge('R4', 'ignore flags use parent-scope matching', facts={'c21_r5_instances': sum(1 for i_ in sub.instances if i_[0] == 'R5')})
 
 
 def _flatten_selection(src):
